@@ -31,6 +31,7 @@ type Spec struct {
 	Outs        []string // output paths relative to the target's out dir
 	Op          string   `json:",omitempty"` // helper only: "setup" | "store" | "retrieve"
 	Repeat      int      `json:",omitempty"` // helper only: repeat the operation this many times (default 1)
+	PauseUS     int      `json:",omitempty"` // helper only: sleep this many microseconds between repetitions
 }
 
 // Quiet silences plz's logging (it would otherwise write every debug line to stderr).
